@@ -49,7 +49,9 @@ class MCMCSampler(Sampler):
         Input samples are in the transformed space.
         """
         x, log_abs_det_jacobian = self.preconditioning_transform.inverse(z)
-        samples = Samples(x, xp=self.xp, dtype=self.dtype)
+        samples = Samples(
+            x, xp=self.xp, dtype=self.dtype, parameters=self.parameters
+        )
         samples.log_prior = self.log_prior(samples)
         samples.log_likelihood = self.log_likelihood(samples)
         log_prob = (
